@@ -41,6 +41,14 @@ func cmdFsTrace(args []string) error {
 	tok := 0
 	for i := 0; i < *n; i++ {
 		cfg := &fsx.HistoryConfig{Names: pool, MaxDepth: *depth, Steps: *steps, Backend: kinds[i%len(kinds)], Tmp: *tmp, Climb: *climb, DiskPre: *diskpre}
+		// every fifth history is a WIDE one: a directory of 9..12 children that is drained again
+		if i%5 == 4 {
+			cfg.Wide = true
+			cfg.Names = []string{"a", "b", "c", "d", "e", "f", "g", "h", "i", "j", "k", "l"}
+			if cfg.Steps < 40 {
+				cfg.Steps = 40
+			}
+		}
 		if err := fsx.RunHistory(r, cfg, d, tw, &tok); err != nil {
 			return err
 		}
